@@ -690,7 +690,11 @@ def _geo_sphere_uv(ctx, M, gen, p, tag, m, V, F, a):
     nl = len(set(lon.tolist()))
     big = float(np.linalg.norm(c)) > 1e3 * p["radius"]
     if not big:
-        ctx.check(nl == p["n_long"], "geometry", gen, "wrong_number_of_longitudes", "sphere_uv: %d different longitudes, n_long=%d" % (nl, p["n_long"]))
+        ctx.check(nl == p["n_long"], "counts", gen, "wrong_number_of_longitudes", "sphere_uv: %d different longitudes, n_long=%d" % (nl, p["n_long"]))
+        # "n_lat different latitudes for points": counted with or without the poles
+        nz = len(set(np.round(W[:, 2], 6).tolist()))
+        ctx.check(nz in (p["n_lat"], p["n_lat"] + 1, p["n_lat"] + 2), "counts", gen, "wrong_number_of_latitudes",
+                  "sphere_uv: %d different latitudes (poles included), n_lat=%d" % (nz, p["n_lat"]))
 
 
 def _geo_sphere_fibonacci(ctx, M, gen, p, tag, m, V, F, a):
@@ -705,6 +709,14 @@ def _geo_torus(ctx, M, gen, p, tag, m, V, F, a):
     ctx.check(bool(abs(rho[i] - r) <= 1e-9 * (R_ + r)), "geometry", gen, "vertex_not_on_the_torus",
               "torus: vertex %d lies at %.9g from the core circle of radius %.9g, minor radius %.9g" % (i, rho[i], R_, r), params=_brief(p))
     _arity(ctx, gen, tag, F, 3 if p["triangulate"] else 4, "triangulate_true_but_not_triangles" if p["triangulate"] else "triangulate_false_but_not_quads")
+    # number of segments = number of different angular positions around the axis / around the core circle
+    a, b = p["major_segments"], p["minor_segments"]
+    hyp = np.hypot(V[:, 0], V[:, 1])
+    u = np.mod(np.round(np.mod(np.arctan2(V[:, 1], V[:, 0]), 2 * math.pi) / (2 * math.pi) * a, 3), a)
+    w = np.mod(np.round(np.mod(np.arctan2(V[:, 2], hyp - R_), 2 * math.pi) / (2 * math.pi) * b, 3), b)
+    nu_, nw_ = len(set(u.tolist())), len(set(w.tolist()))
+    ctx.check(nu_ == a and nw_ == b, "counts", gen, "wrong_number_of_segments",
+              "torus: %d angular positions around the axis and %d around the core circle for %d x %d segments" % (nu_, nw_, a, b))
 
 
 def _geo_cylinder(ctx, M, gen, p, tag, m, V, F, a):
@@ -724,6 +736,13 @@ def _geo_cylinder(ctx, M, gen, p, tag, m, V, F, a):
     n0 = int(np.sum(on_wall & (np.abs(t) * L <= tol)))
     n1 = int(np.sum(on_wall & (np.abs(t - 1) * L <= tol)))
     ctx.check(n0 == N and n1 == N, "counts", gen, "segments_per_end_circle" + tag, "cylinder: %d / %d vertices on the end circles, N=%d" % (n0, n1, N))
+    if len(bad) == 0 and n0 == N and n1 == N:
+        # N segments = N different angular positions on each end circle (chord between neighbours = 2 r sin(pi/N))
+        for end in (0, 1):
+            P = V[on_wall & ((np.abs(t - end)) * L <= tol)]
+            dmin = min(float(np.linalg.norm(P[i] - P[j])) for i in range(len(P)) for j in range(i))
+            ctx.check(dmin >= 2 * r * math.sin(math.pi / N) * (1 - 1e-6), "counts", gen, "end_circle_points_not_evenly_distinct" + tag,
+                      "cylinder: two vertices of an end circle are closer than the chord of a regular %d-gon" % N, dmin=dmin)
     ncap = int(np.sum(on_axis))
     ctx.check(ncap == (2 if p["fill_caps"] else 0), "switch", gen, "fill_caps_not_honoured" + tag,
               "cylinder(fill_caps=%s): %d vertices on the axis" % (p["fill_caps"], ncap))
